@@ -115,10 +115,25 @@ Print Assumptions C06_cancel_reaches_socket_at_once.
 Theorem C06_ping_under_stale_deadline_refuted :
   exists t f evs h a,
     timely (t + ping_period) None (evs ++ [(EDataIn, h)]) = true /\
-    status (run_v false (start t f) evs h) = Closed WriteTimeout a /\ a + 200 * ns_per_s < f /\
+    status (run_v false false (start t f) evs h) = Closed WriteTimeout a /\ a + 200 * ns_per_s < f /\
     status (run (start t f) evs h) = Open.
 Proof. exact stale_deadline_kills_quiet_connection. Qed.
 Print Assumptions C06_ping_under_stale_deadline_refuted.
+
+(* The event alphabet of C06_no_early_close includes what a client may legitimately do besides
+   answering pings: unsolicited pongs as a one-way heartbeat (EPongUnsolicited, any payload - the
+   handler renews the read deadline), pings of its own (EClientPing - answered with a pong, nothing
+   else changes), data messages of any length including zero (EDataIn), an ignored close frame.
+   None of them ends the connection.  The variant in which the pong handler rejects a pong that
+   does not echo the relay's ping is refuted: the heartbeat client, which answers every ping in
+   time, is dropped at its first unsolicited pong, 298 s before its expiry. *)
+Theorem C06_strict_pong_handler_refuted :
+  exists t f evs h a,
+    timely (t + ping_period) None (evs ++ [(EDataIn, h)]) = true /\
+    status (run_v true true (start t f) evs h) = Closed PongRejected a /\ a + 200 * ns_per_s < f /\
+    status (run (start t f) evs h) = Open.
+Proof. exact strict_pong_kills_heartbeat_client. Qed.
+Print Assumptions C06_strict_pong_handler_refuted.
 
 (* non-vacuity: a 3 s token accepted 0.9 s into a second closes 0.9 s into the second after E;
    130 s of idling with prompt pongs leaves a long-lived connection open; the same without pongs
